@@ -248,6 +248,14 @@ def eval_length(ctx, n, cfg, matrix, plan_rows, tag, bye_cells="all",
                           dict(case, cell=[d, t]))
             break
     ctx.count("bye_replacements", tested)
+    # the same object, the same plan, after it has seen all the other plans
+    v3 = obj.evaluate(gp)
+    ctx.count("re_evaluations_after_history")
+    if v3 != v:
+        ctx.violation("length-depends-on-history",
+                      f"the same plan evaluates to {v} first and to {v3} "
+                      f"after {tested} other plans on the same objective "
+                      f"object", case)
     if aways and tested:
         ctx.nontrivial(matrix, plan_rows)
     return v
